@@ -7,7 +7,29 @@ use smoltcp::time::Instant;
 use smoltcp::wire::{EthernetAddress, HardwareAddress, Ieee802154Address, Ieee802154Pan, IpCidr};
 use std::collections::VecDeque;
 
+thread_local! {
+    static VALIDATE_TX: std::cell::Cell<bool> = const { std::cell::Cell::new(false) };
+    static TX_VIOLATIONS: std::cell::RefCell<Vec<crate::indep::validate::Violation>> = const { std::cell::RefCell::new(Vec::new()) };
+    static TX_CHAINS: std::cell::RefCell<std::collections::BTreeMap<String, u64>> = const { std::cell::RefCell::new(std::collections::BTreeMap::new()) };
+}
+
+/// Switch on strict validation of every frame emitted through a `SimDevice`
+/// created afterwards on this thread (property C10).
+pub fn set_validate_tx(on: bool) {
+    VALIDATE_TX.with(|v| v.set(on));
+    TX_VIOLATIONS.with(|v| v.borrow_mut().clear());
+    TX_CHAINS.with(|v| v.borrow_mut().clear());
+}
+pub fn take_tx_violations() -> Vec<crate::indep::validate::Violation> {
+    TX_VIOLATIONS.with(|v| std::mem::take(&mut *v.borrow_mut()))
+}
+pub fn take_tx_chains() -> std::collections::BTreeMap<String, u64> {
+    TX_CHAINS.with(|v| std::mem::take(&mut *v.borrow_mut()))
+}
+
 pub struct SimDevice {
+    /// strict validation context (None = validation off)
+    pub vctx: Option<crate::indep::validate::TxContext>,
     pub medium: Medium,
     pub mtu: usize,
     pub rx: VecDeque<Vec<u8>>,
@@ -25,7 +47,23 @@ pub struct SimDevice {
 
 impl SimDevice {
     pub fn new(medium: Medium, mtu: usize) -> SimDevice {
+        let vctx = if VALIDATE_TX.with(|v| v.get()) {
+            Some(crate::indep::validate::TxContext {
+                medium: match medium {
+                    Medium::Ip => crate::indep::validate::MediumKind::Ip,
+                    Medium::Ethernet => crate::indep::validate::MediumKind::Ethernet([0; 6]),
+                    Medium::Ieee802154 => crate::indep::validate::MediumKind::Ieee802154,
+                },
+                mtu,
+                caps: crate::indep::validate::TxCaps::all(),
+                own_addrs: None,
+                raw_protocols: vec![253, 254],
+            })
+        } else {
+            None
+        };
         SimDevice {
+            vctx,
             medium,
             mtu,
             rx: VecDeque::new(),
@@ -42,6 +80,22 @@ impl SimDevice {
     pub fn begin_poll(&mut self, budget: Option<usize>) {
         self.tx_budget = budget;
         self.emitted_since_reset = 0;
+        if let Some(cx) = self.vctx.as_mut() {
+            cx.mtu = self.mtu;
+            cx.caps = crate::indep::validate::TxCaps {
+                ipv4: self.checksum.ipv4.tx(),
+                udp: self.checksum.udp.tx(),
+                tcp: self.checksum.tcp.tx(),
+                icmpv4: self.checksum.icmpv4.tx(),
+                icmpv6: self.checksum.icmpv6.tx(),
+            };
+        }
+    }
+    /// Tell the validator which addresses the interface owns right now.
+    pub fn set_own_addrs(&mut self, addrs: Vec<crate::indep::Ip>) {
+        if let Some(cx) = self.vctx.as_mut() {
+            cx.own_addrs = Some(addrs);
+        }
     }
     pub fn take_tx(&mut self) -> Vec<Vec<u8>> {
         std::mem::take(&mut self.tx)
@@ -53,6 +107,7 @@ pub struct SimRx {
 }
 pub struct SimTx<'a> {
     q: &'a mut Vec<Vec<u8>>,
+    vctx: Option<&'a crate::indep::validate::TxContext>,
 }
 
 impl phy::RxToken for SimRx {
@@ -72,6 +127,18 @@ impl<'a> phy::TxToken for SimTx<'a> {
         // garbage pre-fill: nothing the stack emits may depend on old buffer contents
         let mut buf = vec![0xA5u8; len];
         let r = f(&mut buf);
+        if let Some(cx) = self.vctx {
+            match crate::indep::validate::validate_frame(cx, &buf) {
+                Ok(s) => TX_CHAINS.with(|c| *c.borrow_mut().entry(s.chain).or_insert(0) += 1),
+                Err((k, m)) => TX_VIOLATIONS.with(|v| {
+                    let mut v = v.borrow_mut();
+                    if v.len() < 16 {
+                        let hexs: String = buf.iter().take(96).map(|b| format!("{:02x}", b)).collect();
+                        v.push((k, format!("{} [frame {} octets: {}]", m, buf.len(), hexs)));
+                    }
+                }),
+            }
+        }
         self.q.push(buf);
         r
     }
@@ -98,7 +165,7 @@ impl Device for SimDevice {
         let buf = self.rx.pop_front()?;
         self.rx_count += 1;
         self.emitted_since_reset += 1;
-        Some((SimRx { buf }, SimTx { q: &mut self.tx }))
+        Some((SimRx { buf }, SimTx { q: &mut self.tx, vctx: self.vctx.as_ref() }))
     }
 
     fn transmit(&mut self, _t: Instant) -> Option<Self::TxToken<'_>> {
@@ -112,7 +179,7 @@ impl Device for SimDevice {
             None => {}
         }
         self.emitted_since_reset += 1;
-        Some(SimTx { q: &mut self.tx })
+        Some(SimTx { q: &mut self.tx, vctx: self.vctx.as_ref() })
     }
 }
 
@@ -164,6 +231,9 @@ impl Node {
             Hw::Ieee(_, pan) | Hw::IeeeShort(_, pan) => cfg.pan_id = pan.map(Ieee802154Pan),
             _ => {}
         }
+        if let (Some(cx), Hw::Eth(m)) = (dev.vctx.as_mut(), &hw) {
+            cx.medium = crate::indep::validate::MediumKind::Ethernet(*m);
+        }
         let iface = Interface::new(cfg, &mut dev, now);
         Node {
             iface,
@@ -177,7 +247,14 @@ impl Node {
         });
     }
     /// One `Interface::poll` with the given transmit budget; returns emitted frames.
+    pub fn sync_validator(&mut self) {
+        if self.dev.vctx.is_some() {
+            let addrs = self.iface.ip_addrs().iter().map(|c| crate::indep::Ip::from_smol(c.address())).collect();
+            self.dev.set_own_addrs(addrs);
+        }
+    }
     pub fn poll(&mut self, now: Instant, budget: Option<usize>) -> Vec<Vec<u8>> {
+        self.sync_validator();
         self.dev.begin_poll(budget);
         let _ = self.iface.poll(now, &mut self.dev, &mut self.sockets);
         self.dev.take_tx()
